@@ -1,10 +1,39 @@
 /-
   Props/C02.lean — Bind parameters are exactly what the route pattern captured.
-  (further clauses are added as the proof development proceeds; see DESIGN.md §5/C02)
+
+  Quantifier: every regular-expression engine `E`, every header predicate `hok`, every tree
+  registration can build (`build E h`, any history `h`) — or any tree with the registration
+  invariant `BindsDistinct` — every request path (any byte string), every params list the search
+  starts with.
+
+  Vocabulary (Proofs/Params.lean): `Walk E hok subs leaves s rest` is `Spec.Dispatch.Reach` as data
+  (the accepting root-to-leaf walk: same four constructors, same fields); `w.endLeaf` the leaf it
+  ends in; `w.steps` which pattern took which segments; `w.binds = w.steps.flatMap (Step.caps E)`
+  the *captured values* read off the walk, root to leaf:
+      placeholder node/leaf            ↦ (bind, that one segment)
+      match-all child taking s::skipped ↦ (bind, joinSlash (s :: skipped))
+      final match-all leaf             ↦ (bind, joinSlash (all remaining segments))
+      match-all leaf at the last segment ↦ (bind, s)
+      regex node/leaf                  ↦ (bindᵢ, submatchᵢ₊₁) for the NAMED groups of `E.find pattern s`
+      static                           ↦ nothing
+  `w.writes` lists the same pairs in the order the code writes them (a match-all child writes
+  after the search below it returned).
+
+  Proof structure: Proofs/Params.lean (`match_frame`: a search below a node never touches a key
+  an ancestor binds; `match_winner`: after a hit every captured pair of the winning walk is what
+  `get?` returns), Proofs/ParamsAdd.lean (`build_bindsDistinct`: the `ancBinds` checks of
+  registration keep bind names distinct along every root-to-leaf path), Proofs/ParamsUrl.lean
+  (the round trip through `urlPath`, on top of C12), Proofs/ParamsRegex.lean (`EngineLaws`).
 -/
-import Flamego.Proofs.Assoc
+import Flamego.Proofs.ParamsAdd
+import Flamego.Proofs.ParamsUrl
+import Flamego.Proofs.ParamsRegex
+import Flamego.Props.C01
 
 namespace Flamego.C02
+open C01 (segsOf)
+
+/-! ### 1. the reserved parameter `route` -/
 
 /-- "the reserved parameter `route` is the canonical text of the matched route" — on both
     dispatch paths (fast path and tree), for every router state, engine and request. -/
@@ -23,5 +52,637 @@ theorem route_param_canonical (E : Engine) (R : Router) (req : Request) (l : Lea
       · injection h with h1 h2
         subst h1 h2
         exact Params.get?_set_same _ _ _
+
+/-! ### 2. the values of the winner
+
+"the bind-parameter values its handlers receive are exactly the substrings of the request path
+captured by that route's pattern … and no value belongs to a different bind of the same route" -/
+
+/-- **`params_of_winner`** (matcher level, raw values, any starting params).  If the search below
+    a node returns leaf `l` with params `ps'`, there is an accepting walk `w` ending in `l` — the
+    one the matcher took; by `C01.dispatch_first` its leaf is the first in priority order — with:
+    * every bind of the walk is bound once on the walk (`Nodup`), and is no ancestor's bind;
+    * for every captured pair `(b, v)` of the walk, `ps'.get? b = some v`: the winner's write to
+      `b` is the last write to `b` of the whole search, so a stale value left by an abandoned
+      branch never shadows it, and no value of another bind of the route is delivered under `b`;
+    * keys bound by ancestors are untouched.
+    Keys that the winning walk does not bind are NOT constrained: an abandoned branch may have
+    left values under other names (the doc comment of `Tree.Match` allows extra values; see
+    `stale_extra_key` below). -/
+theorem params_of_winner (E : Engine) (hok : Nat → Bool) (anc : List Bytes) (subs : List Node)
+    (leaves : List Leaf) (hb : BindsOK anc subs leaves) (s : Seg) (rest : List Seg) (ps ps' : Params)
+    (l : Leaf) (h : matchNext E hok subs leaves s rest ps = (some l, ps')) :
+    ∃ w : Walk E hok subs leaves s rest, w.endLeaf = l ∧
+      (w.binds.map (·.1)).Nodup ∧ (∀ b ∈ w.binds.map (·.1), b ∉ anc) ∧
+      (∀ b v, (b, v) ∈ w.binds → ps'.get? b = some v) ∧
+      (∀ k ∈ anc, ps'.get? k = ps.get? k) := by
+  obtain ⟨w, hw, hholds⟩ := (match_winner E hok).1 subs leaves s rest ps anc hb l ps' h
+  obtain ⟨h1, h2⟩ := w.binds_keys anc hb
+  refine ⟨w, hw, h1, h2, fun b v hbv => hholds (b, v) hbv, fun k hk => ?_⟩
+  have := (match_frame E hok).1 subs leaves s rest ps anc hb k hk
+  rw [h] at this
+  exact this
+
+/-- **`params_trace`** (no invariant at all, any tree).  The params after a successful search are
+    the params before it with a list of writes `tr` applied in order (`applyWrites`, last write
+    wins — Go's `params[k] = v`), and the writes of the winning walk occur in `tr` in the walk's
+    own order: everything else in `tr` is what abandoned branches left behind ("values left by
+    abandoned branches stay in the list").  WITHOUT distinct bind names this is all that can be
+    said — the literal "`ps'.get? b` is the last value the walk writes for `b`" is false then, see
+    `bad_stale_shadows` in §9; WITH them (`params_of_winner`) the winner's write to `b` is the
+    last write to `b` in `tr`. -/
+theorem params_trace (E : Engine) (hok : Nat → Bool) (subs : List Node) (leaves : List Leaf)
+    (s : Seg) (rest : List Seg) (ps ps' : Params) (l : Leaf)
+    (h : matchNext E hok subs leaves s rest ps = (some l, ps')) :
+    ∃ (w : Walk E hok subs leaves s rest) (tr : List (Bytes × Bytes)), w.endLeaf = l ∧
+      ps' = applyWrites tr ps ∧ w.writes.Sublist tr ∧
+      ∀ k, ps'.get? k = (match lastW tr k with | some v => some v | none => ps.get? k) := by
+  obtain ⟨tr, htr, hw⟩ := (match_trace E hok).1 subs leaves s rest ps (some l) ps' h
+  obtain ⟨w, hwl, hsl⟩ := hw l rfl
+  exact ⟨w, tr, hwl, htr, hsl, fun k => by rw [htr]; exact get?_applyWrites tr ps k⟩
+
+/-- the order of the writes does not matter for the result: the pairs in code order (`writes`)
+    and in root-to-leaf order (`binds`) are the same up to order -/
+theorem writes_perm_binds {E : Engine} {hok : Nat → Bool} :
+    {subs : List Node} → {leaves : List Leaf} → {s : Seg} → {rest : List Seg} →
+    (w : Walk E hok subs leaves s rest) → w.writes.Perm w.binds
+  | _, _, _, _, .leaf subs leaves s l hl ha hh => by
+    rw [Walk.binds_leaf]; exact List.Perm.refl _
+  | _, _, _, _, .sub subs leaves s s' rest' k p cs cl hn hna ha w => by
+    rw [Walk.binds_sub]
+    exact List.Perm.append_left _ (writes_perm_binds w)
+  | _, _, _, _, .allSub subs leaves s rest k b cap cs cl skipped s' rest' heq hn hc w => by
+    rw [Walk.binds_allSub]
+    exact (List.perm_append_comm).trans (List.Perm.cons _ (writes_perm_binds w))
+  | _, _, _, _, .allLeaf subs leaves s s' rest' l b cap hl hp hc hh => by
+    rw [Walk.binds_allLeaf]; exact List.Perm.refl _
+
+/-- registration rejects a bind name reused along one route, so every tree it builds has the
+    invariant `params_of_winner` needs -/
+theorem build_bindsDistinct (E : Engine) (h : List (Route × Nat)) : BindsDistinct (build E h) :=
+  Flamego.build_bindsDistinct E h
+
+/-! ### 3. decoding
+
+"… percent-decoded once (left raw if undecodable)" -/
+
+/-- **`decoded_once`** (`Tree.Match` level).  For every tree with distinct bind names along its
+    routes: when `Tree.Match` returns `(l, ps)` there is the accepting walk `w` of the request's
+    segments ending in `l`, and every bind `b` of the walk is delivered as
+    `pathUnescapeOrRaw v`, `v` the raw substring captured for `b`: `url.PathUnescape` applied
+    exactly once, the raw text kept when it fails. -/
+theorem decoded_once (E : Engine) (hok : Nat → Bool) (t : Node) (hd : BindsDistinct t) (path : Bytes)
+    (l : Leaf) (ps : Params) (hm : t.match E hok path = some (l, ps)) :
+    ∃ s rest, segsOf path = s :: rest ∧ ∃ w : Walk E hok t.subs t.leaves s rest, w.endLeaf = l ∧
+      (w.binds.map (·.1)).Nodup ∧
+      ∀ b v, (b, v) ∈ w.binds → ps.get? b = some (pathUnescapeOrRaw v) := by
+  unfold Node.match at hm
+  cases hs : splitSlash (trimLeftSlash path) with
+  | nil => exact absurd hs (splitSlash_ne_nil _)
+  | cons s rest =>
+    rw [hs] at hm
+    simp only at hm
+    cases hmn : matchNext E hok t.subs t.leaves s rest [] with
+    | mk r ps0 =>
+      rw [hmn] at hm
+      cases r with
+      | none => simp at hm
+      | some l0 =>
+        simp only [Option.some.injEq, Prod.mk.injEq] at hm
+        obtain ⟨rfl, rfl⟩ := hm
+        obtain ⟨w, hw, hnd, _, hval, _⟩ :=
+          params_of_winner E hok [] t.subs t.leaves hd s rest [] ps0 l0 hmn
+        refine ⟨s, rest, hs, w, hw, hnd, fun b v hbv => ?_⟩
+        have := get?_map_val pathUnescapeOrRaw ps0 b
+        rw [hval b v hbv] at this
+        exact this
+
+/-- the same for the trees of any registration history -/
+theorem decoded_once_build (E : Engine) (hok : Nat → Bool) (h : List (Route × Nat)) (path : Bytes)
+    (l : Leaf) (ps : Params) (hm : (build E h).match E hok path = some (l, ps)) :
+    ∃ s rest, segsOf path = s :: rest ∧
+      ∃ w : Walk E hok (build E h).subs (build E h).leaves s rest, w.endLeaf = l ∧
+      (w.binds.map (·.1)).Nodup ∧
+      ∀ b v, (b, v) ∈ w.binds → ps.get? b = some (pathUnescapeOrRaw v) :=
+  decoded_once E hok _ (build_bindsDistinct E h) path l ps hm
+
+/-- the winner is the first accepting walk in the documented priority order (C01): the leaf
+    `Tree.Match` returns is the head of the enumeration `derivs` of all accepting walks -/
+theorem winner_first (E : Engine) (hok : Nat → Bool) (h : List (Route × Nat)) (path : Bytes)
+    (l : Leaf) (ps : Params) (hm : (build E h).match E hok path = some (l, ps))
+    (s : Seg) (rest : List Seg) (hs : segsOf path = s :: rest) :
+    (derivs E hok (build E h).subs (build E h).leaves s rest).head? = some l := by
+  rw [← C01.dispatch_first E hok h path s rest hs]
+  simp [C01.chosen, hm]
+
+/-- nothing is decoded twice: a value whose decoding still contains an escape keeps it
+    (`%2541` is delivered as `%41`, not as `A`) -/
+example : pathUnescapeOrRaw (B "%2541") = B "%41" ∧ pathUnescapeOrRaw (B "%41") = B "A" ∧
+    pathUnescapeOrRaw (B "%zz") = B "%zz" := by decide
+
+/-! ### 4. shape of the values
+
+`w.binds = w.steps.flatMap (Step.caps E)`: the clauses below say, per step of the winning walk,
+which segments the step took and what it therefore captured. -/
+
+/-- the captured pairs are, by definition, the captures of the steps -/
+theorem binds_eq_steps {E : Engine} {hok : Nat → Bool} {subs leaves s rest}
+    (w : Walk E hok subs leaves s rest) : w.binds = w.steps.flatMap (Step.caps E) := rfl
+
+/-- the steps partition the request's segments, in order -/
+theorem steps_partition {E : Engine} {hok : Nat → Bool} {subs leaves s rest}
+    (w : Walk E hok subs leaves s rest) : w.steps.flatMap (·.taken) = s :: rest := w.steps_taken
+
+/-- "literal text … matches literally" (a static segment): it took exactly one segment, equal to
+    its literal, and binds nothing -/
+theorem static_literal {E : Engine} {hok : Nat → Bool} {subs leaves s rest}
+    (w : Walk E hok subs leaves s rest) (st : Step) (hst : st ∈ w.steps) (lit : Bytes)
+    (hp : st.pat = .static lit) : st.taken = [lit] ∧ st.caps E = [] := by
+  obtain ⟨x, hx, ha⟩ := (w.steps_ok st hst).single (by rw [hp]; rfl)
+  rw [hp] at ha
+  simp only [Pat.acceptsLeaf, decide_eq_true_eq] at ha
+  subst ha
+  exact ⟨hx, by simp [Step.caps, hp, Pat.caps]⟩
+
+/-- "a placeholder is exactly one path segment": the step took one segment `x` of the request and
+    its bind's value is `x` itself -/
+theorem placeholder_one_segment {E : Engine} {hok : Nat → Bool} {subs leaves s rest}
+    (w : Walk E hok subs leaves s rest) (st : Step) (hst : st ∈ w.steps) (b : Bytes)
+    (hp : st.pat = .hole b) : ∃ x, x ∈ s :: rest ∧ st.taken = [x] ∧ st.caps E = [(b, x)] := by
+  obtain ⟨x, hx, _⟩ := (w.steps_ok st hst).single (by rw [hp]; rfl)
+  refine ⟨x, ?_, hx, by simp [Step.caps, hp, Pat.caps, hx, joinSlash]⟩
+  rw [← w.steps_taken]
+  exact List.mem_flatMap.mpr ⟨st, hst, by rw [hx]; simp⟩
+
+/-- … and, the segments being those of a request path, the value contains no `/` -/
+theorem placeholder_no_slash {E : Engine} {hok : Nat → Bool} {subs leaves s rest}
+    (w : Walk E hok subs leaves s rest) (path : Bytes) (hpath : segsOf path = s :: rest)
+    (st : Step) (hst : st ∈ w.steps) (b : Bytes) (hp : st.pat = .hole b) :
+    ∃ x, st.caps E = [(b, x)] ∧ x ∈ segsOf path ∧ slash ∉ x := by
+  obtain ⟨x, hx, _, hc⟩ := placeholder_one_segment w st hst b hp
+  rw [← hpath] at hx
+  exact ⟨x, hc, hx, splitSlash_mem_no_slash _ x hx⟩
+
+/-- "a match-all spans at least one and at most its capture-limit segments": the step took `k`
+    CONSECUTIVE segments of the request, `1 ≤ k`, `capOK cap k` (`k ≤ cap`, or `cap ≤ 0` =
+    unlimited), and its bind's value is their `/`-join -/
+theorem matchall_span {E : Engine} {hok : Nat → Bool} {subs leaves s rest}
+    (w : Walk E hok subs leaves s rest) (st : Step) (hst : st ∈ w.steps) (b : Bytes) (cap : Int)
+    (hp : st.pat = .all b cap) :
+    st.caps E = [(b, joinSlash st.taken)] ∧ 1 ≤ st.taken.length ∧ capOK cap st.taken.length = true ∧
+      ∃ pre post, s :: rest = pre ++ st.taken ++ post := by
+  obtain ⟨hne, hc⟩ := (w.steps_ok st hst).all b cap hp
+  refine ⟨by simp [Step.caps, hp, Pat.caps], ?_, hc, ?_⟩
+  · cases h : st.taken with
+    | nil => exact absurd h hne
+    | cons a t => simp
+  · obtain ⟨pre, post, h⟩ := flatMap_mem_split (·.taken) hst
+    exact ⟨pre, post, by rw [← w.steps_taken, h]⟩
+
+/-- the capture limit read as in the property text: a positive limit is an upper bound on the
+    number of segments -/
+theorem capOK_pos (cap : Int) (k : Nat) (hcap : 0 < cap) (h : capOK cap k = true) : (k : Int) ≤ cap := by
+  simp only [capOK, Bool.or_eq_true, decide_eq_true_eq] at h
+  omega
+
+/-- a regex step took exactly one segment, the engine matched its assembled pattern against it
+    (reporting at least one submatch per group), and the step's values are the submatches of
+    the NAMED groups: bind `i` of the segment gets submatch `i + 1` -/
+theorem regex_submatches {E : Engine} {hok : Nat → Bool} {subs leaves s rest}
+    (w : Walk E hok subs leaves s rest) (st : Step) (hst : st ∈ w.steps) (pattern : Bytes)
+    (bs : List Bytes) (hp : st.pat = .regex pattern bs) :
+    ∃ x subm, x ∈ s :: rest ∧ st.taken = [x] ∧ E.find pattern x = some subm ∧
+      bs.length + 1 ≤ subm.length ∧ st.caps E = zipNamed bs (subm.drop 1) := by
+  obtain ⟨x, hx, ha⟩ := (w.steps_ok st hst).single (by rw [hp]; rfl)
+  rw [hp] at ha
+  simp only [Pat.acceptsLeaf] at ha
+  cases hf : E.find pattern x with
+  | none => rw [hf] at ha; cases ha
+  | some subm =>
+    rw [hf] at ha
+    refine ⟨x, subm, ?_, hx, hf, by simpa using ha, ?_⟩
+    · rw [← w.steps_taken]
+      exact List.mem_flatMap.mpr ⟨st, hst, by rw [hx]; simp⟩
+    · simp [Step.caps, hp, Pat.caps, hx, joinSlash, hf]
+
+/-! ### 5. the round trip
+
+"Consequently substituting the values back into the route (with the optional segment iff the
+request used it) reproduces the request path" -/
+
+/-- a walk without regex steps: static texts, placeholders and match-alls only -/
+def RegexFree {E : Engine} {hok : Nat → Bool} {subs leaves s rest}
+    (w : Walk E hok subs leaves s rest) : Prop := ∀ st ∈ w.steps, ∀ pt bs, st.pat ≠ .regex pt bs
+
+/-- the one exception to the round trip: the short form of a route whose ONLY segment is optional
+    (`/?name` requested as `/`).  `URLPath` stops before the optional segment and, nothing
+    being in front of it, returns the EMPTY string, not `/`. -/
+def RootShort (l : Leaf) : Prop := l.long = false ∧ l.route.segs.length < 2
+
+/-- **`roundtrip_partial`** — for the trees of every history of parsed routes and EVERY accepting
+    walk `w` (in particular the winner's) that uses no regex segment: `URLPath` of the leaf's route
+    with the RAW captures of the walk, the optional segment included iff the leaf is the long form,
+    is `/` followed by the request's segments joined by `/` — the request path with its leading
+    slashes reduced to one.  Covers static, placeholder and match-all segments (a match-all in
+    the middle or at the end, any capture limit), long and short form. -/
+theorem roundtrip_partial (E : Engine) (hok : Nat → Bool) (h : List (Route × Nat))
+    (hP : ∀ rh ∈ h, ∀ s ∈ rh.1.segs, ParsedSeg s = true) {s : Seg} {rest : List Seg}
+    (w : Walk E hok (build E h).subs (build E h).leaves s rest)
+    (hnr : RegexFree w) (hns : ¬ RootShort w.endLeaf) :
+    urlPath w.endLeaf.route w.binds w.endLeaf.long = slash :: joinSlash (s :: rest) := by
+  have hb := build_bindsDistinct E h
+  refine walk_roundtrip_of w (build_routeInv E _ h hP) (build_keyInv E _ h hP) ?_ ?_
+  · intro hl
+    apply Classical.byContradiction
+    intro hlt
+    exact hns ⟨hl, by omega⟩
+  · intro seg st _ hst hcl
+    refine instSeg_step hcl (w.steps_ok st hst) (hnr st hst) ?_
+    intro bv hbv
+    exact lookup_of_mem_nodup w.binds (w.binds_keys [] hb).1 bv.1 bv.2
+      (List.mem_flatMap.mpr ⟨st, hst, hbv⟩)
+
+/-- the full statement: the same without `RegexFree`.  It is FALSE as it stands — see
+    `roundtrip_regex_multi_counterexample` in §9: `URLPath` writes only the FIRST parameter of an
+    element `{a: /…/, b: /…/}`, so the value of `b` is lost — and is proved in §7
+    (`roundtrip_regex`) under `EngineLaws` for routes whose parameter lists have one entry. -/
+def roundtrip_full : Prop :=
+  ∀ (E : Engine) (hok : Nat → Bool) (h : List (Route × Nat)),
+    (∀ rh ∈ h, ∀ s ∈ rh.1.segs, ParsedSeg s = true) → ∀ (s : Seg) (rest : List Seg)
+    (w : Walk E hok (build E h).subs (build E h).leaves s rest), ¬ RootShort w.endLeaf →
+    urlPath w.endLeaf.route w.binds w.endLeaf.long = slash :: joinSlash (s :: rest)
+
+/-- the exception is real: for the short form of `/?{x}` the URL is empty -/
+theorem root_short_url_empty (opt : Segment) (hopt : opt.optional = true) (vals : List (Bytes × Bytes)) :
+    urlPath ⟨[opt]⟩ vals false = [] := by
+  simp [urlPath, skeleton, skeleton.go, hopt, replaceAll, replaceAll.go]
+
+/-- **dispatch + round trip**: what `Tree.Match` returns, in one statement — the winning walk,
+    the decoded values delivered for its binds, and the URL rebuilt from the raw captures -/
+theorem dispatch_roundtrip (E : Engine) (hok : Nat → Bool) (h : List (Route × Nat))
+    (hP : ∀ rh ∈ h, ∀ s ∈ rh.1.segs, ParsedSeg s = true) (path : Bytes) (l : Leaf) (ps : Params)
+    (hm : (build E h).match E hok path = some (l, ps)) :
+    ∃ s rest, segsOf path = s :: rest ∧
+      ∃ w : Walk E hok (build E h).subs (build E h).leaves s rest, w.endLeaf = l ∧
+      (∀ b v, (b, v) ∈ w.binds → ps.get? b = some (pathUnescapeOrRaw v)) ∧
+      (RegexFree w → ¬ RootShort l →
+        urlPath l.route w.binds l.long = slash :: joinSlash (segsOf path)) := by
+  obtain ⟨s, rest, hs, w, hw, _, hval⟩ := decoded_once_build E hok h path l ps hm
+  refine ⟨s, rest, hs, w, hw, hval, fun hnr hns => ?_⟩
+  subst hw
+  rw [hs]
+  exact roundtrip_partial E hok h hP w hnr hns
+
+/-! ### 6. regex segments, under `EngineLaws`
+
+"each regex-constrained value matches its own declared expression in full and literal text around
+it matches literally".  `EngineLaws E` (Proofs/ParamsRegex.lean) is a HYPOTHESIS about the
+engine parameter — soundness of a reported match of an assembled pattern `^q₁…qₖ$`: the input
+splits into one part per piece, a literal part equals its literal, the part under `(e)` is
+accepted by `^(?:e)$` and is reported as submatch `1 + Σ_{j<i} (1 + groups eⱼ)`.  It is never
+postulated; the correspondence check monitors it on every answer of the real engine. -/
+
+/-- the segments of a form of a parsed route are parsed -/
+theorem formSegs_parsed {l : Leaf} (hS : ∀ x ∈ l.route.segs, ParsedSeg x = true) :
+    ∀ x ∈ formSegs l, ParsedSeg x = true := by
+  intro x hx
+  apply hS
+  unfold formSegs at hx
+  split at hx
+  · exact hx
+  · exact List.dropLast_subset _ hx
+
+/-- **`regex_values_match`** — for every accepting walk in a tree built from parsed routes and
+    every regex step `st` of it: `st` stands for a segment `seg` of the leaf's route; it took one
+    request segment `x`; and `x` splits into one part per piece of `seg`
+    (`segPieces`: identifier ↦ `lit`, `{b}` ↦ `any b`, `b: /e/` ↦ `group b e n`) with
+    * `lit t`       : the part equals `t`                       ("literal text matches literally"),
+    * `any b`       : the part is non-empty and is the value captured for `b`,
+    * `group b e n` : the part is accepted by `^(?:e)$`         ("matches its own declared
+                      expression in full") and is the value captured for `b`. -/
+theorem regex_values_match (E : Engine) (hE : EngineLaws E) (hok : Nat → Bool) (h : List (Route × Nat))
+    (hP : ∀ rh ∈ h, ∀ s ∈ rh.1.segs, ParsedSeg s = true) {s : Seg} {rest : List Seg}
+    (w : Walk E hok (build E h).subs (build E h).leaves s rest) (hns : ¬ RootShort w.endLeaf)
+    (st : Step) (hst : st ∈ w.steps) (pattern : Bytes) (bs : List Bytes)
+    (hp : st.pat = .regex pattern bs) :
+    ∃ seg ∈ formSegs w.endLeaf, classifyLeaf E seg = .ok st.pat ∧
+      ∃ x parts, st.taken = [x] ∧ x ∈ s :: rest ∧ parts.flatten = x ∧
+        Forall2 (PieceCaptured E (st.caps E)) (segPieces E seg.elems) parts := by
+  have hshort : w.endLeaf.long = false → 2 ≤ w.endLeaf.route.segs.length := by
+    intro hl
+    apply Classical.byContradiction
+    intro hlt
+    exact hns ⟨hl, by omega⟩
+  obtain ⟨hS, hF, _⟩ := w.steps_classify (fun a b ha hb h => parsedSeg_render_inj ha hb h)
+    (build_routeInv E _ h hP) (build_keyInv E _ h hP) hshort
+  obtain ⟨seg, hseg, hcl⟩ := hF.exists_left hst
+  obtain ⟨x, subm, hx, hf, _, hcaps⟩ := regex_step_find (w.steps_ok st hst) hp
+  have hcl' := hcl
+  rw [hp] at hcl'
+  obtain ⟨parts, hflat, hFp⟩ := regex_pieces_captured hE (formSegs_parsed hS seg hseg) hcl' hf
+  refine ⟨seg, hseg, hcl, x, parts, hx, ?_, hflat, by rw [hcaps]; exact hFp⟩
+  rw [← w.steps_taken]
+  exact List.mem_flatMap.mpr ⟨st, hst, by rw [hx]; simp⟩
+
+/-! ### 7. the round trip with regex segments -/
+
+/-- **`roundtrip_regex`** — under `EngineLaws`: the round trip of §5 for walks through ANY kind of
+    segment (static, placeholder, match-all, regex with literal text around the binds), provided
+    every parameter list of the route has one entry (`{name: /expr/}`, not `{a: /…/, b: /…/}`) -/
+theorem roundtrip_regex (E : Engine) (hE : EngineLaws E) (hok : Nat → Bool) (h : List (Route × Nat))
+    (hP : ∀ rh ∈ h, ∀ s ∈ rh.1.segs, ParsedSeg s = true) {s : Seg} {rest : List Seg}
+    (w : Walk E hok (build E h).subs (build E h).leaves s rest)
+    (hsp : ∀ seg ∈ w.endLeaf.route.segs, SingleParams seg.elems) (hns : ¬ RootShort w.endLeaf) :
+    urlPath w.endLeaf.route w.binds w.endLeaf.long = slash :: joinSlash (s :: rest) := by
+  have hb := build_bindsDistinct E h
+  have hshort : w.endLeaf.long = false → 2 ≤ w.endLeaf.route.segs.length := by
+    intro hl
+    apply Classical.byContradiction
+    intro hlt
+    exact hns ⟨hl, by omega⟩
+  have hri := build_routeInv E _ h hP
+  have hki := build_keyInv E _ h hP
+  obtain ⟨hS, _, _⟩ := w.steps_classify (fun a b ha hb h => parsedSeg_render_inj ha hb h) hri hki hshort
+  refine walk_roundtrip_of w hri hki hshort ?_
+  intro seg st hseg hst hcl
+  have hsegr : seg ∈ w.endLeaf.route.segs := by
+    unfold formSegs at hseg
+    split at hseg
+    · exact hseg
+    · exact List.dropLast_subset _ hseg
+  refine instSeg_step_regex hE (hS seg hsegr) hcl (w.steps_ok st hst) (hsp seg hsegr) ?_
+  intro bv hbv
+  exact lookup_of_mem_nodup w.binds (w.binds_keys [] hb).1 bv.1 bv.2
+    (List.mem_flatMap.mpr ⟨st, hst, hbv⟩)
+
+/-! ### 8. router level
+
+`Router.serve` puts `route` on top of what `Tree.Match` returned (tree path), or delivers `route`
+alone (fast path: the table holds `allStatic` leaves only, and such a route binds nothing). -/
+
+/-- tree path: the handler receives the decoded captures of the winning walk, and `route`.
+    `route` is RESERVED: a bind that happens to be called `route` is overwritten by the route
+    text (router.go sets it after `Match`), hence the side condition `b ≠ "route"`. -/
+theorem serve_tree_params (E : Engine) (R : Router) (req : Request) (t : Node) (l : Leaf) (ps : Params)
+    (hfast : assocGet R.statics (req.method, req.path) = none)
+    (ht : assocGet R.trees req.method = some t) (hd : BindsDistinct t)
+    (h : R.serve E req = .handler l ps) :
+    ∃ s rest, segsOf req.path = s :: rest ∧
+      ∃ w : Walk E (R.hok E req.hdrs) t.subs t.leaves s rest, w.endLeaf = l ∧
+      ps.get? (B "route") = some l.route.render ∧
+      ∀ b v, (b, v) ∈ w.binds → b ≠ B "route" → ps.get? b = some (pathUnescapeOrRaw v) := by
+  have hroute := route_param_canonical E R req l ps h
+  unfold Router.serve at h
+  rw [hfast] at h
+  simp only [Router.serveTreeOnly, ht] at h
+  cases hm : t.match E (R.hok E req.hdrs) req.path with
+  | none => rw [hm] at h; cases h
+  | some lp =>
+    obtain ⟨l0, ps0⟩ := lp
+    rw [hm] at h
+    simp only [Outcome.handler.injEq] at h
+    obtain ⟨rfl, rfl⟩ := h
+    obtain ⟨s, rest, hs, w, hw, _, hval⟩ := decoded_once E _ t hd req.path l0 ps0 hm
+    refine ⟨s, rest, hs, w, hw, hroute, fun b v hbv hne => ?_⟩
+    rw [Params.get?_set_other _ _ _ _ hne]
+    exact hval b v hbv
+
+/-- fast path: the params are exactly `[route]` -/
+theorem serve_fast_params (E : Engine) (R : Router) (req : Request) (leaf : Leaf)
+    (hfast : assocGet R.statics (req.method, req.path) = some leaf) :
+    R.serve E req = .handler leaf [(B "route", leaf.route.render)] := by
+  unfold Router.serve
+  rw [hfast]
+
+/-- … and nothing is lost by that: in every tree registration can build, a walk that ends in a
+    leaf flagged `allStatic` (`Leaf.Static()`, the only leaves the fast-path table ever holds —
+    `Router.addMethods`) captures nothing -/
+theorem static_route_binds_nothing (E : Engine) (hok : Nat → Bool) (h : List (Route × Nat))
+    {s : Seg} {rest : List Seg} (w : Walk E hok (build E h).subs (build E h).leaves s rest)
+    (hf : w.endLeaf.allStatic = true) : w.binds = [] :=
+  (w.binds_nil_of_allStatic true (build_staticInv E h) hf).2
+
+/-- the fast-path table only ever receives `allStatic` leaves -/
+theorem statics_only_allStatic (E : Engine) (hid : Nat) (r : Route) :
+    ∀ (ms : List String) (R : Router) (acc : List (String × Leaf)),
+    (∀ kv ∈ R.statics, kv.2.allStatic = true) →
+    ∀ kv ∈ (R.addMethods E hid r ms acc).1.statics, kv.2.allStatic = true
+  | [], R, acc, hR => by simpa [Router.addMethods] using hR
+  | m :: ms, R, acc, hR => by
+    rw [Router.addMethods]
+    cases ht : assocGet R.trees m with
+    | none => exact hR
+    | some t =>
+      simp only
+      cases ha : addRoute E t r hid with
+      | error e => exact hR
+      | ok t' =>
+        simp only
+        cases hf : findLongLeaf hid t' with
+        | none => exact hR
+        | some leaf =>
+          simp only
+          apply statics_only_allStatic E hid r ms
+          intro kv hkv
+          split at hkv
+          · rename_i hcond
+            simp only [Bool.and_eq_true] at hcond
+            rcases mem_assocSet_cases hkv with rfl | hm
+            · exact hcond.1
+            · exact hR kv hm
+          · exact hR kv hkv
+
+/-- the trees of a router that was built with `Router.new`, `addMethods`, `setHeaders`, `setName`
+    all have distinct bind names along their routes (so `serve_tree_params` applies) -/
+theorem router_trees_distinct_new : Router.new.TreesOK BindsDistinct :=
+  Router.new_treesOK _ root_bindsDistinct
+
+theorem router_trees_distinct_add (E : Engine) (R : Router) (hid : Nat) (r : Route) (ms : List String)
+    (acc : List (String × Leaf)) (hR : R.TreesOK BindsDistinct) :
+    (R.addMethods E hid r ms acc).1.TreesOK BindsDistinct :=
+  Router.addMethods_treesOK E _ (fun _ _ _ _ ht ha => addRoute_bindsDistinct ht ha) hid r ms R acc hR
+
+/-! ### 9. non-vacuity, and why the hypotheses are there -/
+
+section Examples
+
+/-- with an engine that compiles nothing no regex segment can be registered, so every walk in a
+    tree it builds is regex-free: for such histories `roundtrip_partial` is unconditional -/
+theorem regexFree_of_no_compile (E : Engine) (hE : ∀ p, E.compile p = none) (hok : Nat → Bool)
+    (h : List (Route × Nat)) (hP : ∀ rh ∈ h, ∀ s ∈ rh.1.segs, ParsedSeg s = true)
+    {s : Seg} {rest : List Seg} (w : Walk E hok (build E h).subs (build E h).leaves s rest)
+    (hns : ¬ RootShort w.endLeaf) : RegexFree w := by
+  have hshort : w.endLeaf.long = false → 2 ≤ w.endLeaf.route.segs.length := by
+    intro hl
+    apply Classical.byContradiction
+    intro hlt
+    exact hns ⟨hl, by omega⟩
+  obtain ⟨_, hF, _⟩ := w.steps_classify (fun a b ha hb h => parsedSeg_render_inj ha hb h)
+    (build_routeInv E _ h hP) (build_keyInv E _ h hP) hshort
+  intro st hst pt bs hp
+  obtain ⟨seg, _, hcl⟩ := hF.exists_left hst
+  rw [hp] at hcl
+  rcases classifyLeaf_inv hcl with ⟨_, _, _, hr⟩ | ⟨hp', _⟩ | ⟨_, hp', _⟩ | ⟨_, hp', _⟩ | ⟨_, _, hp', _⟩
+  · unfold classifyRegex at hr
+    simp only [bind, Except.bind] at hr
+    split at hr
+    · cases hr
+    · split at hr
+      · cases hr
+      · rw [hE] at hr
+        cases hr
+  all_goals cases hp'
+
+/-- an engine that knows no expression -/
+def E₀ : Engine := ⟨fun _ => none, fun _ _ => none, fun _ _ => false⟩
+def ok : Nat → Bool := fun _ => true
+
+/-- `/{x}/a` then `/{y}/b` -/
+def h₁ : List (Route × Nat) :=
+  [(⟨[⟨false, [.bind [120]]⟩, ⟨false, [.ident [97]]⟩]⟩, 0),
+   (⟨[⟨false, [.bind [121]]⟩, ⟨false, [.ident [98]]⟩]⟩, 1)]
+
+def leafB : Leaf :=
+  ⟨[98], .static [98], 1, ⟨[⟨false, [.bind [121]]⟩, ⟨false, [.ident [98]]⟩]⟩, true, false⟩
+
+theorem build_h₁ : build E₀ h₁ = .mk [] (.static [])
+    [.mk (B "/{x}") (.hole [120]) []
+       [⟨[97], .static [97], 0, ⟨[⟨false, [.bind [120]]⟩, ⟨false, [.ident [97]]⟩]⟩, true, false⟩],
+     .mk (B "/{y}") (.hole [121]) [] [leafB]] [] := rfl
+
+/-- **extra keys are allowed, the winner's are exact**: `/%31/b` is served by `/{y}/b` with
+    `y = "1"` (decoded once); the abandoned branch `/{x}/a` has left `x = "1"` behind — a key the
+    winning route does not bind, which `params_of_winner` deliberately leaves unconstrained -/
+theorem stale_extra_key :
+    (build E₀ h₁).match E₀ ok (B "/%31/b") = some (leafB, [([120], [49]), ([121], [49])]) := by
+  rw [build_h₁]
+  simp [Node.match, B, trimLeftSlash, splitSlash, slash, matchNext, matchSubs, treeMatch, matchLeaves,
+    leafMatch, Params.set, Node.subs, Node.leaves, pathUnescapeOrRaw, pathUnescape, pct, ok, leafB,
+    isHex, unhex]
+  decide
+
+example : ∀ rh ∈ h₁, ∀ s ∈ rh.1.segs, ParsedSeg s = true := by decide
+
+/-- the premises of `dispatch_roundtrip` are met by a concrete request, and its conclusions —
+    including the round trip (`"/%31/b"` again: the RAW capture `%31` is substituted) — hold -/
+example : ∃ s rest, segsOf (B "/%31/b") = s :: rest ∧
+    ∃ w : Walk E₀ ok (build E₀ h₁).subs (build E₀ h₁).leaves s rest, w.endLeaf = leafB ∧
+    (∀ b v, (b, v) ∈ w.binds →
+      Params.get? [([120], [49]), ([121], [49])] b = some (pathUnescapeOrRaw v)) ∧
+    urlPath leafB.route w.binds leafB.long = slash :: joinSlash (segsOf (B "/%31/b")) := by
+  obtain ⟨s, rest, hs, w, hw, hv, hrt⟩ := dispatch_roundtrip E₀ ok h₁ (by decide) _ _ _ stale_extra_key
+  refine ⟨s, rest, hs, w, hw, hv, hrt ?_ (by simp [RootShort, leafB])⟩
+  exact regexFree_of_no_compile E₀ (fun _ => rfl) ok h₁ (by decide) w
+    (by rw [hw]; simp [RootShort, leafB])
+
+/-- **the invariant is needed**: a hand-made tree registration can NOT build — `{x}` below `{x}`,
+    with a match-all leaf `{y: **}` next to the inner one -/
+def badSubs : List Node :=
+  [.mk [1] (.hole [120]) [.mk [2] (.hole [120]) [] [⟨[97], .static [97], 0, ⟨[]⟩, true, false⟩]]
+     [⟨[121], .all [121] 0, 1, ⟨[]⟩, true, false⟩]]
+
+theorem bad_not_distinct : ¬ BindsOK [] badSubs [] := by
+  intro h
+  have hc := h.child (k := [1]) (p := .hole [120]) (List.mem_cons_self ..)
+  have := (hc.subOK (k := [2]) (p := .hole [120]) (List.mem_cons_self ..)).2 [120] (by simp [Pat.binds])
+  simp [Pat.binds] at this
+
+/-- on `/1/2/3` the winning walk is `{x} ↦ "1"`, `{y: **} ↦ "2/3"`, but the abandoned inner `{x}`
+    wrote `x = "2"` AFTER the winner's `x = "1"`: without distinct names a stale value shadows
+    the winner's — exactly what `BindsDistinct` (kept by registration) excludes -/
+theorem bad_stale_shadows :
+    matchNext E₀ ok badSubs [] [49] [[50], [51]] [] =
+      (some ⟨[121], .all [121] 0, 1, ⟨[]⟩, true, false⟩, [([120], [50]), ([121], [50, 47, 51])]) := by
+  simp [badSubs, matchNext, matchSubs, treeMatch, matchLeaves, leafMatch, matchAllLeaf, Params.set, ok,
+    joinSlash, slash]
+
+/-- the engine that never matches satisfies `EngineLaws`: the hypothesis is consistent (that the
+    real engine satisfies it on the expressions it is given is what the harness monitors) -/
+theorem engineLaws_consistent : EngineLaws E₀ := ⟨fun _ _ _ _ h => by cases h⟩
+
+/-- an engine that knows exactly `^(x+)(y+)$` on `xxyy` -/
+def E₁ : Engine :=
+  ⟨fun _ => some 0,
+   fun p s => if p = B "^(x+)(y+)$" ∧ s = B "xxyy" then some [B "xxyy", B "xx", B "yy"] else none,
+   fun _ _ => false⟩
+
+/-- `/{a: /x+/, b: /y+/}` -/
+def rMulti : Route := ⟨[⟨false, [.params [⟨[97], .re (B "x+")⟩, ⟨[98], .re (B "y+")⟩]]⟩]⟩
+def hMulti : List (Route × Nat) := [(rMulti, 0)]
+def leafMulti : Leaf :=
+  ⟨B "{a: /x+/, b: /y+/}", .regex (B "^(x+)(y+)$") [[97], [98]], 0, rMulti, true, false⟩
+
+theorem build_multi : build E₁ hMulti = .mk [] (.static []) [] [leafMulti] := rfl
+
+/-- **`roundtrip_full` is false**: `/xxyy` is served by `/{a: /x+/, b: /y+/}` with `a = "xx"`,
+    `b = "yy"`, but `URLPath` writes `{a}` only (the first parameter of the element), so the URL
+    rebuilt from the captures is `/xx`.  (`roundtrip_regex` excludes such parameter lists.) -/
+theorem roundtrip_regex_multi_counterexample : ¬ roundtrip_full := by
+  intro H
+  have hl : leafMulti ∈ (build E₁ hMulti).leaves := by rw [build_multi]; simp [Node.leaves]
+  have ha : leafMulti.pat.acceptsLeaf E₁ (B "xxyy") = true := by decide
+  have hh : ok leafMulti.hid = true := by simp [ok]
+  have := H E₁ ok hMulti (by decide) (B "xxyy") [] (.leaf _ _ _ leafMulti hl ha hh)
+    (by simp [RootShort, Walk.endLeaf, leafMulti])
+  rw [Walk.binds_leaf] at this
+  simp only [Walk.endLeaf] at this
+  have hcaps : leafMulti.pat.caps E₁ (B "xxyy") = [([97], B "xx"), ([98], B "yy")] := by decide
+  rw [hcaps] at this
+  revert this
+  decide
+
+/-- `/a{n: /x+/}` with the small engine `RegexExample.E₂` (which satisfies `EngineLaws`:
+    `RegexExample.engineLaws_E₂`) -/
+def rRe : Route := ⟨[⟨false, [.ident [97], .params [⟨[110], .re (B "x+")⟩]]⟩]⟩
+def hRe : List (Route × Nat) := [(rRe, 0)]
+def leafRe : Leaf := ⟨B "a{n: /x+/}", .regex (B "^a(x+)$") [[110]], 0, rRe, true, false⟩
+
+theorem build_re : build RegexExample.E₂ hRe = .mk [] (.static []) [] [leafRe] := rfl
+
+/-- the premises of `regex_values_match` and `roundtrip_regex` are met by a concrete regex route
+    and request: `/axx` is served with `n = "xx"`, the literal `a` matched literally, `xx` is
+    accepted by `^(?:x+)$`, and the URL rebuilt from the capture is `/axx` -/
+example : ∃ w : Walk RegexExample.E₂ ok (build RegexExample.E₂ hRe).subs (build RegexExample.E₂ hRe).leaves
+      (B "axx") [], w.endLeaf = leafRe ∧ w.binds = [([110], B "xx")] ∧
+    urlPath rRe w.binds true = B "/axx" ∧
+    ∃ parts, parts.flatten = B "axx" ∧
+      Forall2 (PieceCaptured RegexExample.E₂ [([110], B "xx")])
+        [.lit [97], .group [110] (B "x+") 0] parts := by
+  have hl : leafRe ∈ (build RegexExample.E₂ hRe).leaves := by rw [build_re]; simp [Node.leaves]
+  have ha : leafRe.pat.acceptsLeaf RegexExample.E₂ (B "axx") = true := by decide
+  have hh : ok leafRe.hid = true := by simp [ok]
+  have hP : ∀ rh ∈ hRe, ∀ s ∈ rh.1.segs, ParsedSeg s = true := by decide
+  refine ⟨.leaf _ _ _ leafRe hl ha hh, rfl, ?_, ?_, ?_⟩
+  · rw [Walk.binds_leaf]; decide
+  · have := roundtrip_regex RegexExample.E₂ RegexExample.engineLaws_E₂ ok hRe hP
+      (.leaf _ _ _ leafRe hl ha hh)
+      (by
+        intro seg hseg e he ps hps
+        simp only [Walk.endLeaf, leafRe, rRe, List.mem_singleton] at hseg
+        subst hseg
+        simp only [List.mem_cons, List.not_mem_nil, or_false] at he
+        rcases he with rfl | rfl
+        · cases hps
+        · injection hps with hps; subst hps; rfl)
+      (by simp [RootShort, Walk.endLeaf, leafRe])
+    simp only [Walk.endLeaf] at this
+    show urlPath leafRe.route _ leafRe.long = _
+    rw [this]
+    decide
+  · obtain ⟨seg, hseg, _, x, parts, hx, _, hflat, hF⟩ :=
+      regex_values_match RegexExample.E₂ RegexExample.engineLaws_E₂ ok hRe hP
+        (.leaf _ _ _ leafRe hl ha hh) (by simp [RootShort, Walk.endLeaf, leafRe])
+        ⟨leafRe.key, leafRe.pat, [B "axx"]⟩ (by simp [Walk.steps]) (B "^a(x+)$") [[110]] rfl
+    simp only [formSegs, Walk.endLeaf, leafRe, rRe, ↓reduceIte, List.mem_singleton] at hseg
+    subst hseg
+    simp only [List.cons.injEq, and_true] at hx
+    subst hx
+    refine ⟨parts, hflat, ?_⟩
+    have hcaps : Step.caps RegexExample.E₂ ⟨leafRe.key, leafRe.pat, [B "axx"]⟩ = [([110], B "xx")] := by
+      decide
+    rw [hcaps] at hF
+    exact hF
+
+end Examples
 
 end Flamego.C02
